@@ -421,7 +421,14 @@ def rsel_shutdown_is_a_select_branch(ctx):
     shutdown_is_a_select_branch(ctx, "C03.SEL")
 
 
-RULES = [r10_call_is_polled_before_its_timeout, rsel_shutdown_is_a_select_branch, rids_wire_ids_derive_both, ratomic_ids_reserved_atomically, r1_id_and_wire_agree, r2_key_discipline, r3_insert_before_send, r4_completion_consumes, r5_allocator, r6_batch_slots, r7_ids_not_ordered, r8_http_client_id_check, r9_gone_caller_is_not_a_connection_error, rarr_every_element, rcancel_receive_is_cancel_safe, rkeys_manager_keys_not_derived] + BORROWED
+
+def rloop_client_tasks_keep_polling(ctx):
+    """the client's background loops suspend only at vetted points"""
+    from .common import client_loops_suspend_only_where_vetted
+    client_loops_suspend_only_where_vetted(ctx, "C03.LOOP")
+
+
+RULES = [rloop_client_tasks_keep_polling, r10_call_is_polled_before_its_timeout, rsel_shutdown_is_a_select_branch, rids_wire_ids_derive_both, ratomic_ids_reserved_atomically, r1_id_and_wire_agree, r2_key_discipline, r3_insert_before_send, r4_completion_consumes, r5_allocator, r6_batch_slots, r7_ids_not_ordered, r8_http_client_id_check, r9_gone_caller_is_not_a_connection_error, rarr_every_element, rcancel_receive_is_cancel_safe, rkeys_manager_keys_not_derived] + BORROWED
 
 LEVEL_TEXT = (
     "Structural necessary conditions of response demultiplexing decided from the type-checked program: the recorded id "
